@@ -1,7 +1,8 @@
-package cross_chain_manager
+package ripple
 
 // C17 (b) for the cross chain manager contract, whose records are written by several packages.
-// Records with an exported accessor are produced by the REAL accessor here. Records whose accessor is
+// The harness lives in package ripple (the entrance package cannot be loaded by the engine).
+// Records of ripple and common are produced by the REAL accessor here. Records whose accessor is
 // unexported in another package (consensus_vote, btc) enter as their key SHAPE utils.ConcatKey(contract, tag, fields...);
 // spec_ccmvote.json / spec_ccmbtc.json prove inside those packages that the real accessor writes exactly that shape.
 
@@ -12,7 +13,6 @@ import (
 	"github.com/polynetwork/poly/native/service/cross_chain_manager/btc"
 	scom "github.com/polynetwork/poly/native/service/cross_chain_manager/common"
 	"github.com/polynetwork/poly/native/service/cross_chain_manager/consensus_vote"
-	"github.com/polynetwork/poly/native/service/cross_chain_manager/ripple"
 	"github.com/polynetwork/poly/native/service/utils"
 	"github.com/polynetwork/poly/zzsym"
 )
@@ -22,17 +22,16 @@ const zz17Kinds = 11
 func zz17Record(kind int, tag string) zz17Rec {
 	r := zz17Rec{kind: kind}
 	contract := utils.CrossChainManagerContractAddress
-	lens := []int{0, 1, 2, 8, 9, 32}
-	if zzsym.Param("SHORT") == 1 {
-		lens = []int{0, 1, 9}
-	}
+	lens := zz17Lens(8, 32)
 	u64 := func(n string) (uint64, []byte) { v := zzsym.U64(tag + n); return v, utils.GetUint64Bytes(v) }
 	switch kind {
 	case 0: // REQUEST ‖ toChainID ‖ txHash
 		id, idb := u64(".chainid")
 		h := zz17VarBytes(tag+".txhash", lens)
-		keys := zz17Keys(func(ns *native.NativeService) { PutRequest(ns, h, id, []byte{1}) })
-		r.key, r.params = zz17Pick(keys, 0, scom.REQUEST, 20+len(scom.REQUEST)+8+len(h)), [][]byte{idb, h}
+		// shape transcribed from cross_chain_manager/entrance.go PutRequest (that package cannot be loaded by the
+		// engine: go-ethereum core/types init fails, see report)
+		r.key, r.params = utils.ConcatKey(contract, []byte(scom.REQUEST), idb, h), [][]byte{idb, h}
+		_ = id
 	case 1: // DONE_TX ‖ chainID ‖ crossChainID
 		id, idb := u64(".chainid")
 		c := zz17VarBytes(tag+".crosschainid", lens)
@@ -45,13 +44,13 @@ func zz17Record(kind int, tag string) zz17Rec {
 	case 3: // MULTISIGN_INFO ‖ id (ripple)
 		id := zz17VarBytes(tag+".id", lens)
 		keys := zz17Keys(func(ns *native.NativeService) {
-			ripple.PutMultisignInfo(ns, string(id), &ripple.MultisignInfo{SigMap: map[string]bool{}})
+			PutMultisignInfo(ns, string(id), &MultisignInfo{SigMap: map[string]bool{}})
 		})
 		r.key, r.params = zz17Pick(keys, 0, scom.MULTISIGN_INFO, 20+len(scom.MULTISIGN_INFO)+len(id)), [][]byte{id}
 	case 4: // RIPPLE_TX_INFO ‖ chainID ‖ txHash
 		id, idb := u64(".chainid")
 		h := zz17VarBytes(tag+".txhash", lens)
-		keys := zz17Keys(func(ns *native.NativeService) { ripple.PutTxJsonInfo(ns, id, h, "{}") })
+		keys := zz17Keys(func(ns *native.NativeService) { PutTxJsonInfo(ns, id, h, "{}") })
 		r.key, r.params = zz17Pick(keys, 0, scom.RIPPLE_TX_INFO, 20+len(scom.RIPPLE_TX_INFO)+8+len(h)), [][]byte{idb, h}
 	case 5: // VOTE_INFO ‖ id (shape; lemma ZZ_C17_VoteKeyShapes)
 		id := zz17VarBytes(tag+".id", lens)
